@@ -52,7 +52,9 @@ ALPHABET = {
     "comment": ["x:-", "d:99", "x:1"],
 }
 EXTRA = {"</rt>": ["e:rt:-"], "<q:a>": ["s:a:q"], "</q:a>": ["e:a:q"], "</doc>": ["e:[document]:-"], "enddata": ["x:-"],
-         "wscomment": ["x:-", "d:32,32", "x:1"], "cdata": ["x:-", "d:100", "x:2"], "y": ["d:121,32"], "ff": ["d:12"], "nbsp": ["d:160"]}
+         "wscomment": ["x:-", "d:32,32", "x:1"], "cdata": ["x:-", "d:100", "x:2"], "y": ["d:121,32"], "ff": ["d:12"], "nbsp": ["d:160"],
+         # nodes the parser can leave EMPTY (<!---->, <![CDATA[]]> inside <pre>): falsy objects in the links
+         "emptycomment": ["x:-", "d:-", "x:1"], "emptycdata": ["x:-", "d:-", "x:2"], "emptyflush": ["d:-", "x:-"]}
 
 
 def make_builder(cfg, events, attempts=()):
